@@ -114,7 +114,7 @@ crate::harnesses! {
 
     /// long exponents: "1e" + optional sign + 21 symbolic digits: no overflow/panic, saturating exponent, count == len.
     /// @prop C10 C01 C11
-    /// @tier thorough
+    /// @tier deep
     /// @mem 28
     /// @feat default radix_format
     /// @bound inputs of the shape 1e[+-]?[0-9]{21} (exponent digits symbolic)
